@@ -30,6 +30,8 @@ FIXED = [
  ("C06", "2a78890", "post-measurement states divided by the renormalised probability after eps_zero truncation: trace != 1, State constructor raised"),
  ("C15", "26bcf7f", "StandardPovmt.generate_empi_dists_sequence spelt its keyword seed_or_genrator: execute_simulation / generate_empi_dists_and_calc_estimate with a Povm as the unknown raised TypeError"),
  ("C12", "bd3d6fb", "mode_weight='unbiased_inverse_covariance' accepted by the option class but without a branch in _set_weights_by_mode: the mode silently configured nothing (found by the theorem about the generated mode table)"),
+ ("C04", "b9e6103", "MProcess.calc_proj_eq_constraint (object level) applied its correction twice to an ndarray occurring twice in hss (copy.deepcopy keeps the aliasing): hss = [E, E, 0] gave first-row sum 1/3"),
+ ("C04", "c6154d5", "Gate.calc_proj_ineq_constraint (object level) did not pass eps_truncate_imaginary_part to to_hs_from_choi_with_sparsity: a Gate built with eps 1e-8 still raised at parameter scale 1e3"),
 ]
 findings = []
 for f in sorted(glob.glob(os.path.join(HERE, "known_findings.d", "*.json"))):
